@@ -39,7 +39,8 @@ def _scaled(tok):
 @driver("tx.dump")
 def tx_dump(case, ctx):
     import h5py
-    path = gen.place(ctx.path(), case["table"], case["px"], case["mode"], at=case.get("at"))     # a URI when case["at"] is set
+    path = gen.place(ctx.path(), case["table"], case["px"], case["mode"], at=case.get("at"),     # a URI when case["at"] is set
+                     prior=case.get("prior", False))
     if case["wexp"]:
         fp, grp = gen.split_uri(path)
         with h5py.File(fp, "r+") as f:
